@@ -192,24 +192,27 @@ def plan(prop, tier, seed):
             s = S()
             G.append([("hs", scen.handshake_session(s, rotations=s % 4 == 0))])
         fam(n(40, 600), scen.hs_stray_session, "hs-stray")
+        fam(n(40, 600), scen.hs_outage_session, "hs-outage")
+        fam(n(25, 400), scen.hs_migrate_session, "hs-migrate")
         if not q:
             # exhaustive fates for the first 6 handshake datagrams (4^6 = 4096 assignments), one seed
             import itertools
             for fates in itertools.product("dxur", repeat=6):
                 G.append([("hs-fates", scen.handshake_session(seed, fates=list(fates)))])
     elif prop == "C06":
-        fam(n(80, 1500), scen.listener_session, "lsn")
+        fam(n(80, 1500), scen.listener_session, "lsn"); fam(n(20, 300), scen.hs_migrate_session, "hs-migrate")
     elif prop == "C07":
-        fam(n(80, 1500), scen.listener_session, "lsn")
+        fam(n(80, 1500), scen.listener_session, "lsn"); fam(n(20, 300), scen.hs_outage_session, "hs-outage")
     elif prop == "C08":
         fam(n(60, 1000), scen.listener_session, "lsn")
         for _ in range(n(20, 300)):
             G.append([("hs-hostile", scen.handshake_session(S(), hostile=True))])
+        fam(n(15, 300), scen.hs_migrate_session, "hs-migrate")
     elif prop == "C09":
         fam(n(70, 2000), scen.hostile_session, "hostile")
         for _ in range(n(40, 800)):
             G.append([("hs-hostile", scen.handshake_session(S(), hostile=True, rotations=True))])
-        fam(n(30, 500), scen.listener_session, "lsn")
+        fam(n(30, 500), scen.listener_session, "lsn"); fam(n(15, 300), scen.hs_migrate_session, "hs-migrate")
         data(n(5, 40), big_groups=True)
     elif prop == "C10":
         data(n(80, 1200), with_close=True, updates=True); fam(n(40, 600), scen.close_burst_session, "close-burst")
